@@ -83,4 +83,5 @@ THEOREMS = [
     ("DastardV.Lemmas.ComposeAbacoExcerpt", "DastardV.Compose.excerpt_sample_of_packet"),
     ("DastardV.Lemmas.C03Oracle", "DastardV.C03.chkFrames_iff"),
     ("DastardV.Lemmas.C03Oracle", "DastardV.C03.chkFrames_abut"),
+    ("DastardV.Lemmas.C03Oracle", "DastardV.C03.chkShape_sound"),
 ]
